@@ -1069,20 +1069,34 @@ class mulgrid(object):
         if isinstance(oldcolname, str) and isinstance(newcolname, str):
             oldcolname, newcolname = [oldcolname], [newcolname]
         try:
-            for olditem, newitem in zip(oldcolname, newcolname):
-                i = self.columnlist.index(self.column[olditem])
-                col = self.columnlist[i]
-                # connections are found under the names of their columns:
+            pairs = list(zip(oldcolname, newcolname))
+            oldnames = [olditem for olditem, newitem in pairs]
+            newnames = [newitem for olditem, newitem in pairs]
+            cols = [self.columnlist[self.columnlist.index(self.column[olditem])]
+                    for olditem in oldnames]
+            # new names may be old names of other renamed columns, but must not
+            # clash with each other or with columns that keep their names:
+            kept = set(self.column.keys()) - set(oldnames)
+            if len(set(oldnames)) < len(oldnames) or len(set(newnames)) < len(newnames) \
+               or kept.intersection(newnames):
+                return False
+            # connections are found under the names of their columns:
+            cons = []
+            for col in cols:
                 for con in col.connection:
-                    del self.connection[tuple([c.name for c in con.column])]
+                    if con not in cons: cons.append(con)
+            for con in cons:
+                del self.connection[tuple([c.name for c in con.column])]
+            for olditem in oldnames: del self.column[olditem]
+            for col, newitem in zip(cols, newnames):
                 col.name = newitem
-                for con in col.connection:
-                    self.connection[tuple([c.name for c in con.column])] = con
-                self.column[newitem] = self.column.pop(olditem)
+                self.column[newitem] = col
+            for con in cons:
+                self.connection[tuple([c.name for c in con.column])] = con
             self.setup_block_name_index()
             self.setup_block_connection_name_index()
             return True
-        except ValueError: return False
+        except (ValueError, KeyError): return False
 
     def clear_layers(self):
         """Deletes all layers from the grid."""
@@ -1108,14 +1122,25 @@ class mulgrid(object):
         if isinstance(oldlayername, str) and isinstance(newlayername, str):
             oldlayername, newlayername = [oldlayername], [newlayername]
         try:
-            for olditem, newitem in zip(oldlayername, newlayername):
-                i = self.layerlist.index(self.layer[olditem])
-                self.layerlist[i].name = newitem
-                self.layer[newitem] = self.layer.pop(olditem)
+            pairs = list(zip(oldlayername, newlayername))
+            oldnames = [olditem for olditem, newitem in pairs]
+            newnames = [newitem for olditem, newitem in pairs]
+            lays = [self.layerlist[self.layerlist.index(self.layer[olditem])]
+                    for olditem in oldnames]
+            # new names may be old names of other renamed layers, but must not
+            # clash with each other or with layers that keep their names:
+            kept = set(self.layer.keys()) - set(oldnames)
+            if len(set(oldnames)) < len(oldnames) or len(set(newnames)) < len(newnames) \
+               or kept.intersection(newnames):
+                return False
+            for olditem in oldnames: del self.layer[olditem]
+            for lay, newitem in zip(lays, newnames):
+                lay.name = newitem
+                self.layer[newitem] = lay
             self.setup_block_name_index()
             self.setup_block_connection_name_index()
             return True
-        except ValueError: return False
+        except (ValueError, KeyError): return False
 
     def add_connection(self, con = None):
         """Adds connection to the grid. If a connection with the same
